@@ -220,10 +220,10 @@ def handleBraceArgs : List String → Option String
       if !(bracesCovered isBytes r g.flags (r.pats ++ r.excl)) then pure "missing-brace" else
       if r.pats.isEmpty then pure "ok -" else
       let a1 := Compile.braceArgs x g.flags (Compile.globPolicy x g false) g.limit r.pats g.limit ⟨0, 0, [], ⟨[], []⟩⟩
-      let a2 := match Compile.globParse x g false r.pats g.limit ⟨[], []⟩ 0 with
+      let a2 := match Compile.globParse x g false r.pats g.limit ⟨[], []⟩ 0 0 with
         | .error _ => []
-        | .ok (o, cl, pulls) =>
-          if r.hasExcl then Compile.braceArgs x g.flags (Compile.globPolicy x g true) g.limit r.excl cl ⟨0, pulls, [], o⟩ else []
+        | .ok (o, cl, pulls, total) =>
+          if r.hasExcl then Compile.braceArgs x g.flags (Compile.globPolicy x g true) g.limit r.excl cl ⟨total, pulls, [], o⟩ else []
       pure s!"ok {encArgs (a1 ++ a2)}"
     else
       let trF : Flags → Flags := fun f => if api = "tr" then { f with translate := true } else f
@@ -232,11 +232,12 @@ def handleBraceArgs : List String → Option String
       if !(bracesCovered isBytes r fM r.pats && bracesCovered isBytes r fE r.excl) then pure "missing-brace" else
       if r.hasExcl then
         let aE := Compile.braceArgs x fE (Compile.pnPolicy x fE) limit r.excl limit ⟨0, 0, [], ⟨[], []⟩⟩
-        let aM := match Compile.compileCore x fE limit r.excl [] 0 with
+        let aM := match Compile.compileCore x fE limit r.excl [] 0 0 with
           | .error _ => []
           | .ok o =>
-            let l' : Int := limit - o.pos.length
-            Compile.braceArgs x fM (Compile.pnPolicy x fM) l' r.pats l' ⟨0, o.pulls, [], ⟨[], o.pos⟩⟩
+            let used := o.pos.length             -- `used = len(negative)`; `total = used`
+            Compile.braceArgs x fM (Compile.pnPolicy x fM) limit r.pats (Compile.startLimit limit used)
+              ⟨used, o.pulls, [], ⟨[], o.pos⟩⟩
         pure s!"ok {encArgs (aE ++ aM)}"
       else
         pure s!"ok {encArgs (Compile.braceArgs x fM (Compile.pnPolicy x fM) limit r.pats limit ⟨0, 0, [], ⟨[], []⟩⟩)}"
